@@ -507,3 +507,81 @@ func ruleMergeKeepOrder(c *Ctx) {
 	}
 	c.minInstances("appends to the rewrite set in the Merge cone", na, 2)
 }
+
+// R-MERGE-KVONLY (C15 C04 C05 C06 C07): "a newer record of this bucket and key exists" is a statement about the
+// key/value index. Merge may use it to drop a scanned record only if that record is a key/value record: list,
+// set and sorted-set records live in their own name spaces, and a key/value pair with the same bucket name and
+// key in a later segment says nothing about them. Every comparison of the scan position with the Hint of a
+// record looked up in the key/value index must therefore be dominated by ds == DataStructureBPTree of the
+// scanned entry (in Merge, or at Merge's call of the helper that compares).
+func ruleMergeKVOnly(c *Ctx) {
+	m := c.P.MustFunc("(*DB).Merge")
+	c.touch(m)
+	kv, ok := constIntVal(c.P.Const("DataStructureBPTree"))
+	if !ok {
+		c.undecided("DataStructureBPTree", "constant present", "", "constant not found")
+		return
+	}
+	dsEdges := func(f *ssa.Function) []succEdge {
+		return eqEdges(f, true, func(x, y ssa.Value) bool {
+			k, ok := constInt(y)
+			return ok && k == kv && isFieldLoad(x, "MetaData", "ds")
+		})
+	}
+	subjects := []*ssa.Function{m}
+	calls(m, func(ci ssa.CallInstruction) {
+		if cal := ci.Common().StaticCallee(); cal != nil && c.P.inModule(cal) && cal.Blocks != nil && cal.Pkg == c.P.Main {
+			subjects = append(subjects, cal)
+		}
+	})
+	n := 0
+	done := map[*ssa.BasicBlock]bool{}
+	for _, subj := range subjects {
+		subj := subj
+		instrs(subj, func(in ssa.Instruction) {
+			b, ok := in.(*ssa.BinOp)
+			if !ok {
+				return
+			}
+			switch b.Op {
+			case token.GTR, token.LSS, token.GEQ, token.LEQ, token.EQL, token.NEQ:
+			default:
+				return
+			}
+			hit := false
+			for _, side := range []ssa.Value{b.X, b.Y} {
+				if isFieldLoad(stripConv(side), "Hint", "fileID") || isFieldLoad(stripConv(side), "Hint", "dataPos") {
+					hit = true
+				}
+			}
+			if !hit || done[b.Block()] {
+				return
+			}
+			done[b.Block()] = true
+			n++
+			okk := false
+			if e := dsEdges(subj); len(e) > 0 && edgesDominate(subj, e, b.Block()) {
+				okk = true
+			}
+			if !okk && subj != m {
+				all := true
+				cnt := 0
+				for _, s := range c.P.CallersOf(subj) {
+					if s.Parent() != m {
+						continue
+					}
+					cnt++
+					if e := dsEdges(m); !(len(e) > 0 && edgesDominate(m, e, s.Block())) {
+						all = false
+					}
+				}
+				okk = all && cnt > 0
+			}
+			c.touch(subj)
+			c.check(okk, fnName(subj), fmt.Sprintf("position comparison #%d with the key/value index applies to key/value records only", n), c.P.ipos(in), "",
+				"the scanned record is compared with the position of the record the KEY/VALUE index holds for its bucket and key, whatever its data structure: a set, list or sorted-set record whose bucket name and key coincide with a key/value pair written to a later segment is judged superseded and dropped with its segment - the member is gone after Merge and reopen")
+		})
+	}
+	c.Sites += n
+	c.minInstances("comparisons of the scan position with an index hint in Merge", n, 2)
+}
